@@ -517,7 +517,7 @@ def ch_offsets(ctx) -> Channel:
     with appboot.Clock("2024-03-01T10:00:00Z"):
         for stream in c12_lib.STREAMS:
             trk = segchecks.tracks(app, stream)
-            offs = sweep_offsets(trk, ctx.scale(28, 200), rng)
+            offs = sweep_offsets(trk, ctx.scale(22, 180), rng)
             mode = rng.choice(["vod", "live"])
             foreign = []
             cases = offsets_case(app, client, c12_lib, segwalk, mp4walk, stream, offs, mode, foreign)
